@@ -82,6 +82,8 @@ var Cidrs = []wm.NPPeer{
 	{CIDR: "10.0.0.0/8", Except: []string{"10.1.0.0/16", "10.1.2.0/24"}}, {CIDR: "10.0.0.0/8", Except: []string{"10.0.0.0/8"}},
 	{CIDR: "0.0.0.0/0", Except: []string{"10.0.0.0/8", "255.255.255.255/32"}}, {CIDR: "10.1.0.0/16", Except: []string{"10.1.2.0/24"}},
 	{CIDR: "10.1.2.3/8"},
+	// IPv6 blocks and excepts (dual-stack policies): no IPv4 address is in them
+	{CIDR: "fd00::/8"}, {CIDR: "::/0", Except: []string{"fd00::/8"}}, {CIDR: "10.0.0.0/8", Except: []string{"10.1.0.0/16", "fd00::/8"}},
 }
 
 func SelPeers() []wm.NPPeer {
@@ -124,6 +126,8 @@ var NsConfigs = [][]wm.NS{
 	{{Name: "ns1", Labels: map[string]string{"team": "a"}, HasObj: true}, {Name: "ns2", Labels: map[string]string{"team": "b"}, HasObj: true}},
 	{{Name: "ns1", Labels: map[string]string{"team": "a"}, HasObj: true}},
 	{},
+	// a Namespace manifest that spells the automatic name label itself, with another namespace's name
+	{{Name: "ns1", Labels: map[string]string{"team": "a", wm.NSNameKey: "ns2"}, HasObj: true}, {Name: "ns2", Labels: map[string]string{"team": "b"}, HasObj: true}},
 }
 
 func ThreeWL(cp1, cp2, cp3 []wm.CPort) []wm.Workload {
